@@ -21,7 +21,7 @@ def domain(name):
 
 @domain("delta_small")
 def delta_small(tier):
-    alpha = [0x00, 0x01, 0x02, 0x03, 0x7F, 0x80, 0x81, 0x90, 0x91, 0xB0]
+    alpha = [0x00, 0x01, 0x02, 0x03, 0x7F, 0x80, 0x81, 0x90, 0x91, 0xB0, 0xC1, 0xFF]
     n = 5 if tier == "quick" else 6
     bases = [b"", b"ab", b"abcdefgh"]
 
@@ -59,3 +59,26 @@ def len_prefixes(tier):
         for t in itertools.product(alpha, repeat=4):
             yield {"sizestr": bytes(t)}
     return gen(), f"all strings of length 4 over {alpha!r} plus lengths 0,1,2,3,5 over its first six symbols"
+
+
+@domain("delta_pairs")
+def delta_pairs(tier):
+    """(base, target) pairs for the create/apply round trip: all pairs of strings <= 3 over {a,b} plus
+    boundary sizes of the insert (127) and copy (0xFFFF) op limits."""
+    import itertools
+    small = list(strings(b"ab", 3))
+    sizes = [0, 1, 126, 127, 128, 253, 254, 255, 381] + ([0xFFFE, 0xFFFF, 0x10000, 0x10001, 0x1FFFE, 0x20000] if tier == "thorough" else [0xFFFF, 0x10000])
+
+    def gen():
+        for b in small:
+            for t in small:
+                yield {"base_buf": b, "target_buf": t}
+        for n in sizes:
+            lit = bytes((i * 7 + 3) % 251 for i in range(n))
+            for base in (b"", b"xyz", lit[: n // 2]):
+                yield {"base_buf": base, "target_buf": lit}
+                yield {"base_buf": lit, "target_buf": base + lit}
+                yield {"base_buf": lit, "target_buf": lit + base}
+            yield {"base_buf": lit, "target_buf": lit}
+            yield {"base_buf": lit + b"Q" + lit, "target_buf": lit + lit}
+    return gen(), f"all (base,target) in {{a,b}}^<=3 x {{a,b}}^<=3 plus structured pairs with literal runs of sizes {sizes}"
